@@ -431,6 +431,8 @@ def _dcog_samples():
             dict(shape=(513, 257), layout="syx", nsamples=2, dtype="uint16", blocksize=[128, 64], chunks=(100, 100), spill_sz=1),
             dict(shape=(70, 530), layout="yx", dtype="float32", nodata=-9999.0, blocksize=[256, 128, 64], chunks=(70, 64), writes_per_chunk=2, scheduler="threads"),
             dict(shape=(64, 64), layout="yx", dtype="int16", blocksize=None, chunks=(32, 32)),
+            dict(shape=(40, 48), layout="yx", dtype="uint8", blocksize=[(16, 32)], chunks=(40, 48)),  # wide tiles; last tile column as wide as a tile is tall
+            dict(shape=(50, 96), layout="syx", nsamples=2, dtype="int16", blocksize=[(32, 64), (16, 32)], chunks=(32, 64)),
         ]
         i = 0
         for f in fixed:
@@ -440,7 +442,7 @@ def _dcog_samples():
             yield dict(case=one(i))
             i += 1
 
-    return "7 fixed + 24 (quick) / 120 (thorough) pseudo-random combinations of 7 shapes (incl. single row / column, narrower than a tile) x YX / YXS / SYX x dtypes x nodata x block-size lists x compression / predictor x source chunking x spill size x writes per chunk x synchronous / threaded scheduler x CRS x rotated", gen()
+    return "9 fixed + 24 (quick) / 120 (thorough) pseudo-random combinations of 7 shapes (incl. single row / column, narrower than a tile) x YX / YXS / SYX x dtypes x nodata x block-size lists x compression / predictor x source chunking x spill size x writes per chunk x synchronous / threaded scheduler x CRS x rotated", gen()
 
 
 def _dcog_oracle(args, run=None):
@@ -576,4 +578,135 @@ contract(
     trusted_reason="tifffile / imagecodecs encoders, GDAL and tifffile decoders, dask bag scheduling: BOUNDED native round trip; the layout arithmetic, the offset table and the multi-part assembly are proved (C05 / C06 contracts)",
     native_samples=_dcog_samples,
     native_oracle=_dcog_oracle,
+)
+
+
+# ---- per-tile padding: a ragged edge tile is padded on the right / bottom with the fill value up to the full tile ----------------------
+
+
+def _lemma_tile_padding(kind, th, tw, ny, nx, ns, fill, with_predictor):
+    m = repo(TF)
+    log = []
+
+    class Blk:
+        def __init__(self, tag, shape):
+            self.tag, self.shape, self.ndim = tag, tuple(shape), len(shape)
+            self.data = ("raw-bytes-of", tag)
+
+        def __getitem__(self, idx):
+            log.append(("select", self.tag, idx))
+            return Blk((self.tag, idx), self.shape[1:])
+
+    class GhostNp:
+        ndarray = Blk
+
+        @staticmethod
+        def pad(a, widths, mode="constant", **kw):
+            log.append(("pad", a.tag, tuple(widths), mode, kw))
+            return Blk(("padded", a.tag), tuple(n + lo + hi for n, (lo, hi) in zip(a.shape, widths)))
+
+    def predictor(b, axis=None):
+        log.append(("predict", b.tag, axis))
+        return Blk(("predicted", b.tag), b.shape)
+
+    def encoder(b, **kw):
+        log.append(("encode", b.tag, b.shape, kw))
+        return ("encoded", b.tag)
+
+    saved = (m.np, m.bytes if hasattr(m, "bytes") else None)
+    try:
+        m.np = GhostNp
+        if kind == "yxs":
+            block, tile = Blk("block", (ny, nx, ns)), (th, tw, ns)
+            out = m._cog_block_compressor_yxs(block, tile_shape=tile, encoder=encoder, predictor=predictor if with_predictor else None, fill_value=fill, level=6)
+            src = "block"
+        else:
+            block, tile = Blk("block", (ns, ny, nx)), (th, tw)
+            out = m._cog_block_compressor_syx(block, tile_shape=tile, encoder=encoder, predictor=predictor if with_predictor else None, fill_value=fill, sample_idx=1, level=6)
+            sel = [e for e in log if e[0] == "select"]
+            claim(len(sel) == 1 and sel[0][2][1:] == (slice(None), slice(None)), "one plane of the block is taken, whole")
+            src = ("block", sel[0][2])
+    finally:
+        m.np = saved[0]
+    pads = [e for e in log if e[0] == "pad"]
+    full = And(ny == th, nx == tw)
+    if bool(full):
+        claim(pads == [], "a full tile is not padded")
+        cur = src
+    else:
+        want = ((0, th - ny), (0, tw - nx)) + (((0, 0),) if kind == "yxs" else ())
+        claim(len(pads) == 1 and pads[0][1] == src and pads[0][3] == "constant", "a ragged tile is padded once, with a constant")
+        claim(len(pads) == 1 and len(pads[0][2]) == len(want) and all(lo == wl and bool(hi == wh) for (lo, hi), (wl, wh) in zip(pads[0][2], want)), "... on the bottom and on the right only, exactly up to the tile's height and width (samples untouched)")
+        claim(len(pads) == 1 and pads[0][4].get("constant_values") in ((fill,), fill, ((fill, fill),)), "... with the fill value")
+        cur = ("padded", src)
+    if with_predictor:
+        pr = [e for e in log if e[0] == "predict"]
+        claim(len(pr) == 1 and pr[0][1] == cur and pr[0][2] == 1, "the predictor runs on the padded tile along X")
+        cur = ("predicted", cur)
+    enc = [e for e in log if e[0] == "encode"]
+    claim(len(enc) == 1 and enc[0][1] == cur and enc[0][3] == {"level": 6}, "the (padded, predicted) tile is encoded once with the codec options")
+    claim(len(enc) == 1 and And(enc[0][2][0 if kind == "yxs" else 0] == th, enc[0][2][1] == tw), "what is encoded has exactly the tile's height and width")
+    claim(out == ("encoded", cur), "the encoded bytes are returned")
+
+
+lemma(
+    "cog.tile_padding_flow",
+    ["C05"],
+    inputs=dict(kind=OneOf("yxs", "syx"), th=Int(ge=1), tw=Int(ge=1), ny=Int(ge=1), nx=Int(ge=1), ns=OneOf(2, 3), fill=OneOf(0, -9999), with_predictor=Bool()),
+    requires=[lambda th, tw, ny, nx: And(ny <= th, nx <= tw)],
+    body=_lemma_tile_padding,
+    unstub=[f"{TF}:_cog_block_compressor_yxs", f"{TF}:_cog_block_compressor_syx"],
+    note="data flow of the real per-tile compressors over a stand-in block of ANY size within a tile of ANY (also non-square) size: numpy.pad, predictor and encoder recorded",
+)
+
+
+def _pad_samples():
+    import itertools
+
+    def gen():
+        for (th, tw), kind in itertools.product([(16, 16), (16, 32), (32, 16), (48, 16)], ("yx", "yxs", "syx")):
+            for ny, nx in {(th, tw), (th, tw - 1), (th - 3, tw), (1, 1), (th // 2, tw // 2), (min(th, tw), min(th, tw)), (th - 1, min(th, tw))}:
+                if 1 <= ny <= th and 1 <= nx <= tw:
+                    for fill in (0, 7):
+                        yield dict(kind=kind, th=th, tw=tw, ny=ny, nx=nx, fill=fill)
+
+    return "4 tile shapes (square, wide, tall) x YX / YXS / SYX x 7 block sizes (full, one short, block width == tile height, 1x1, half) x 2 fill values, uncompressed bytes compared with the expected padded array", gen()
+
+
+def _pad_oracle(args, run=None):
+    import numpy as np
+
+    from odc.geo.cog import _tifffile as T
+
+    th, tw, ny, nx, fill, kind = (args[k] for k in ("th", "tw", "ny", "nx", "fill", "kind"))
+    rng = np.random.default_rng(ny * 1000 + nx)
+    fails = []
+    if kind == "yxs":
+        blk = rng.integers(1, 250, size=(ny, nx, 3)).astype("uint8")
+        want = np.full((th, tw, 3), fill, dtype="uint8")
+        want[:ny, :nx, :] = blk
+        got = T._cog_block_compressor_yxs(blk.copy(), tile_shape=(th, tw, 3), fill_value=fill)
+    elif kind == "syx":
+        blk = rng.integers(1, 250, size=(2, ny, nx)).astype("uint8")
+        want = np.full((th, tw), fill, dtype="uint8")
+        want[:ny, :nx] = blk[1]
+        got = T._cog_block_compressor_syx(blk.copy(), tile_shape=(th, tw), fill_value=fill, sample_idx=1)
+    else:
+        blk = rng.integers(1, 250, size=(ny, nx)).astype("uint8")
+        want = np.full((th, tw), fill, dtype="uint8")
+        want[:ny, :nx] = blk
+        got = T._cog_block_compressor_syx(blk.copy(), tile_shape=(th, tw), fill_value=fill)
+    if bytes(got) != want.tobytes():
+        fails.append(f"post:an edge tile holds the block's pixels at the top-left and the fill value on the right / bottom ({kind}, block {ny}x{nx} in tile {th}x{tw})")
+    return fails
+
+
+contract(
+    f"{TF}:_cog_block_compressor_yxs",
+    ["C05"],
+    ensures=[("tile bytes = block padded right/bottom with the fill value", lambda result: True)],
+    verify=False,
+    trusted_reason="numpy.pad / buffer protocol: BOUNDED native check of the uncompressed tile bytes (the data flow for every size is lemma cog.tile_padding_flow)",
+    native_samples=_pad_samples,
+    native_oracle=_pad_oracle,
 )
